@@ -91,14 +91,13 @@ class _Table:
         return iter(enumerate(self.rows))
 
 
-def _run(rm, pops, ratios, sel, before=None):
+def _run(rm, pops, ratios, sel, before=None, option=None):
     """one call of run_model_no_trade; with `before`, an earlier call with that selection is made on the SAME runner object first (run_many_options does that)"""
     rows = [dict(iso3=c, country=NAMES[c], population=pops[c]) for c in CODES]
     calls = []
 
     class Runner(rm.ScenarioRunnerNoTrade):
-        def apply_custom_parameters(self, country_data, scenario_option):
-            return country_data
+        # apply_custom_parameters is the real one: a scenario option named like a column of the table (e.g. `population`) overrides the row for the run
 
         def verify_country_data(self, country_data):
             return None
@@ -115,10 +114,10 @@ def _run(rm, pops, ratios, sel, before=None):
         runner = Runner()
         if before is not None:
             runner.run_model_no_trade(title="vp_c15_earlier", create_pptx_with_all_countries=False, show_country_figures=False, show_map_figures=False, add_map_slide_to_pptx=False,
-                                      scenario_option={"any": 1}, countries_list=list(before), return_results=True)
+                                      scenario_option=dict(option or {"any": 1}), countries_list=list(before), return_results=True)
             del calls[:]
         out = runner.run_model_no_trade(title="vp_c15", create_pptx_with_all_countries=False, show_country_figures=False, show_map_figures=False, add_map_slide_to_pptx=False,
-                                        scenario_option={"any": 1}, countries_list=list(sel), return_results=True)
+                                        scenario_option=dict(option or {"any": 1}), countries_list=list(sel), return_results=True)
     return out, calls
 
 
@@ -137,7 +136,16 @@ def worker_aggregate(case, seed):
             E.assume(ratios[c] >= 0)
             E.assume(ratios[c] <= 50)
         before = list(sel)
-        (world, net_pop, net_fed, results), calls = _run(rm, pops, ratios, sel, before=case.get("before"))
+        option = None
+        if case.get("custom_population"):
+            # the scenario carries a custom `population`: the run of every country sees that population, and so must the totals
+            cp = E.real("custom_population")
+            E.assume(cp > 10000)
+            E.assume(cp < 1e10)
+            option = {"any": 1, "population": cp}
+        (world, net_pop, net_fed, results), calls = _run(rm, pops, ratios, sel, before=case.get("before"), option=option)
+        if option:
+            pops = {c: option["population"] for c in CODES}
         chosen = _selected(before)
         E.check("the optimiser ran exactly once for exactly the selected countries", calls == chosen, info="%s vs %s" % (calls, chosen))
         E.check("every selected country appears exactly once in the results", sorted(results.keys()) == sorted(NAMES[c] for c in chosen) and all(results[NAMES[c]] == "result of " + c for c in chosen))
@@ -162,7 +170,10 @@ def replay_aggregate(case, cx):
     m = vlib.model_floats(cx["model"])
     pops = {c: m.get("population_" + c, 20000.0) for c in CODES}
     ratios = {c: m.get("fed_ratio_" + c, 0.5) for c in CODES}
-    (world, net_pop, net_fed, results), calls = _run(rm, pops, ratios, case["sel"], before=case.get("before"))
+    option = {"any": 1, "population": m.get("custom_population", 123456.0)} if case.get("custom_population") else None
+    (world, net_pop, net_fed, results), calls = _run(rm, pops, ratios, case["sel"], before=case.get("before"), option=option)
+    if option:
+        pops = {c: option["population"] for c in CODES}
     chosen = _selected(case["sel"])
     bad = []
     if calls != chosen:
@@ -210,10 +221,10 @@ def main(tier, seed, only=None):
     sels = [[]] + [list(t) for n in (1, 2, 3) for t in itertools.product(entries, repeat=n)]
     if not thorough:
         sels = [s for s in sels if len(s) <= 2] + [["AAA", "BBB", "CCC"], ["!AAA", "!BBB", "!CCC"], ["AAA", "!BBB", "CCC"], ["!AAA", "AAA", "!CCC"], ["BBB", "BBB", "BBB"], ["!CCC", "!CCC", "AAA"]]
-    groups = [dict(name="aggregate_over_selection", fn="worker_aggregate", cases=[dict(sel=s) for s in sels] + [dict(sel=s, before=b) for s, b in ((["AAA"], ["BBB", "CCC"]), ([], ["CCC"]), (["!AAA"], []), (["BBB", "!CCC"], ["AAA"]), (["CCC"], ["CCC"]))], replay=replay_aggregate,
+    groups = [dict(name="aggregate_over_selection", fn="worker_aggregate", cases=[dict(sel=s) for s in sels] + [dict(sel=s, custom_population=True) for s in ([], ["AAA", "CCC"], ["!BBB"])] + [dict(sel=s, before=b) for s, b in ((["AAA"], ["BBB", "CCC"]), ([], ["CCC"]), (["!AAA"], []), (["BBB", "!CCC"], ["AAA"]), (["CCC"], ["CCC"]))], replay=replay_aggregate,
                    functions=["ScenarioRunnerNoTrade.run_model_no_trade", "get_countries_to_run_and_skip", "fill_data_for_map"], bounds="3-row table; %d selection lists over {A,B,C,!A,!B,!C} (all lists of <= 2 entries, thorough all of <= 3); 5 histories of two calls on the same runner object" % len(sels),
                    symbolic="the three populations (10^4..10^10) and the three per-country fed ratios (0..50)", assumptions=["per-country data checks pass (stubbed)", "the per-country optimiser returns a finite ratio"],
-                   stubs=STUBS[:2] + ["pd.read_csv -> 3-row table object", "gpd.read_file -> stub", "verify_country_data / apply_custom_parameters -> no-ops", "the map table is a 3-row stand-in (two of the three countries are on the map, one is not); the real fill_data_for_map runs against it", "run_optimizer_for_country -> symbolic ratio",
+                   stubs=STUBS[:2] + ["pd.read_csv -> 3-row table object", "gpd.read_file -> stub", "verify_country_data -> no-op (apply_custom_parameters is the real one; 3 cases carry a symbolic custom population)", "the map table is a 3-row stand-in (two of the three countries are on the map, one is not); the real fill_data_for_map runs against it", "run_optimizer_for_country -> symbolic ratio",
                                       "float()/round() in run_model_no_trade shadowed to keep symbolic values (only the printed fraction uses them)"], outside=["the real 164-row table", "NaN ratios (error path)"])]
     vlib.run_groups(rep, MOD, groups, seed, only)
     return rep.finish()
